@@ -302,7 +302,8 @@ Print Assumptions simplify_unused_total.
 
 (* Statement-level mangling (mangleStmts / mangleIf of the parser), by translation
    validation.  Statement lists (expression statements, if/else, return, throw,
-   break/continue, blocks, var/let/const declarations, loops as opaque effects) have
+   break/continue, labelled statements, blocks, var/let/const declarations, loops as
+   opaque effects) have
    a completion-record trace semantics over the worlds of MiniJS; [norm_fn] turns a
    function body into a decision tree of effects, tests and completions, splitting
    the operators the mangler builds statements from (comma, !, void, &&, ||, ?: in
@@ -319,10 +320,11 @@ Print Assumptions simplify_unused_total.
    comma, merging adjacent declarations, dead code after jumps, dropping empty
    statements and blocks, a trailing "return;" / "return void a" at the end of a
    function, "if (a) return;" at the end of a function, reading a declared
-   identifier for nothing.  Not inside: an if with equal arms that are not jumps, the
+   identifier for nothing, "if (a) break L; if (b) break L" => "if (a || b) break L",
+   dropping an unused label.  Not inside: an if with equal arms that are not jumps, the
    store (a declaration evaluates its initializer, the binding is not modelled: the
    single-use substitution of the mangler is not covered), loop bodies (opaque),
-   switch / try / labels.
+   switch / try / continue to a label.
    Full statement: mangleStmts preserves the executions of every statement list. *)
 Theorem stmt_normal_form_sound :
   forall (W : world) (wloop : Z -> nat -> trace * outcome) body tr,
